@@ -48,6 +48,8 @@ func worlds() []*wm.World {
 		{Kind: "Deployment", NS: "ns1", Name: "payments.v2", Labels: map[string]string{"app": "a"}, Ports: []wm.CPort{{Num: 80}}, Replicas: 1},
 		{Kind: "Deployment", NS: "ns1", Name: LongName, Labels: map[string]string{"app": "b"}, Replicas: 1},
 		{Kind: "StatefulSet", NS: "ns-2.x", Name: "1w", Labels: map[string]string{"app": "c"}, Replicas: 1},
+		// real workloads that carry the names of the tool's pseudo peers
+		{Kind: "Pod", NS: "ns1", Name: "representative-pod", Labels: map[string]string{"app": "a"}},
 	}
 	// nothing may talk to anything, except that the workloads of ns1 admit any namespace: the {ingress-controller} lines are the whole report
 	var isolated []wm.NP
@@ -73,7 +75,7 @@ func worlds() []*wm.World {
 // LongName is a 72-character workload name.
 var LongName = "a123456789-b123456789-c123456789-d123456789-e123456789-f123456789-g12345678"
 
-var focuses = []string{"ns1-w", "ns1xw", "ns1w", "payments.v2", "ns1/payments.v2", LongName, "ns1/" + LongName, "1w", "ns-2.x/1w", "w", "ns1/w", "ns2/w", "z", "ns1/z", "ns2/z", "other", "ns3/other", "nosuch", "ns1/nosuch", "ingress-controller", "ns2/ingress-controller", "w[Deployment]", "ns1/w[Deployment]", "ns1", "W"}
+var focuses = []string{"representative-pod", "ns1/representative-pod", "ns1-w", "ns1xw", "ns1w", "payments.v2", "ns1/payments.v2", LongName, "ns1/" + LongName, "1w", "ns-2.x/1w", "w", "ns1/w", "ns2/w", "z", "ns1/z", "ns2/z", "other", "ns3/other", "nosuch", "ns1/nosuch", "ingress-controller", "ns2/ingress-controller", "w[Deployment]", "ns1/w[Deployment]", "ns1", "W"}
 
 type Case struct {
 	WI       int
